@@ -24,6 +24,7 @@ import (
 
 func srvSetup(c *core.Ctx) {
 	registerServerKinds(c)
+	registerProofKind(c)
 	c.Trivial = func(o core.Obs) bool { return strings.HasPrefix(o.Impl, "err") }
 }
 
@@ -79,6 +80,7 @@ func RunC02(c *core.Ctx) {
 		for i := 0; i < n; i++ {
 			doHist(c, cf, genRandomTO2(c, 5+c.Rng.Intn(12)), "random-to2", nil)
 		}
+		doProofs(c, cf, 64, 3*n)
 	}
 }
 
@@ -169,6 +171,7 @@ func RunC06(c *core.Ctx) {
 		for i := 0; i < n; i++ {
 			doHist(c, cf, genRandomOf(c, "TO0", 3+c.Rng.Intn(8)), "random-to0", nil)
 		}
+		doProofs(c, cf, 22, 4*n)
 	}
 }
 
@@ -267,6 +270,7 @@ func RunC07(c *core.Ctx) {
 		for i := 0; i < n; i++ {
 			doHist(c, cf, genRandomOf(c, "TO1", 3+c.Rng.Intn(8)), "random-to1", nil)
 		}
+		doProofs(c, cf, 32, 4*n)
 		if !c.Quick() || si == 0 {
 			expiryProbe(c, spec)
 		}
